@@ -41,7 +41,8 @@ theorem trace_nostdin :
   unfold trace
   rw [Own.mainP_eq]
   unfold Own.mainK
-  simp only [conf, Own.blocks_cons, Own.blocks_nil, Own.paths_cons, Own.paths_nil, dry_walk_G, rule, eval]
+  simp only [conf, Own.blocks_cons, Own.blocks_nil, Own.paths_cons, Own.paths_nil, dry_walk_G _ _ (rule false) (by decide), dry_walk_G _ _ (rule true) (by decide)]
+  simp only [rule, eval]
   decide +kernel
 
 set_option maxRecDepth 100000 in
@@ -53,7 +54,8 @@ theorem trace_stdin :
   unfold trace
   rw [Own.mainP_eq]
   unfold Own.mainK
-  simp only [conf, Own.blocks_cons, Own.blocks_nil, Own.paths_cons, Own.paths_nil, dry_walk_G, rule, eval]
+  simp only [conf, Own.blocks_cons, Own.blocks_nil, Own.paths_cons, Own.paths_nil, dry_walk_G _ _ (rule false) (by decide), dry_walk_G _ _ (rule true) (by decide)]
+  simp only [rule, eval]
   decide +kernel
 
 set_option maxRecDepth 100000 in
@@ -69,7 +71,8 @@ theorem tables :
   unfold trace
   rw [Own.mainP_eq, Own.mainP_eq]
   unfold Own.mainK
-  simp only [conf, Own.blocks_cons, Own.blocks_nil, Own.paths_cons, Own.paths_nil, dry_walk_G, rule, eval]
+  simp only [conf, Own.blocks_cons, Own.blocks_nil, Own.paths_cons, Own.paths_nil, dry_walk_G _ _ (rule false) (by decide), dry_walk_G _ _ (rule true) (by decide)]
+  simp only [rule, eval]
   decide +kernel
 
 set_option maxRecDepth 100000 in
@@ -79,7 +82,90 @@ theorem before_fork :
   unfold trace
   rw [Own.mainP_eq, Own.mainP_eq]
   unfold Own.mainK
-  simp only [conf, Own.blocks_cons, Own.blocks_nil, Own.paths_cons, Own.paths_nil, dry_walk_G, rule, eval]
+  simp only [conf, Own.blocks_cons, Own.blocks_nil, Own.paths_cons, Own.paths_nil, dry_walk_G _ _ (rule false) (by decide), dry_walk_G _ _ (rule true) (by decide)]
+  simp only [rule, eval]
+  decide +kernel
+
+/-! ## a `command` condition: the `fork` of evaluation -/
+
+/-- `processMessage` with the evaluation program as a parameter (equal to `processMessage` by `rfl`), which makes the call
+of `evalP` on the concrete rule visible to `simp only [evalP, evalT]`. -/
+def processMessageGP (env : PEnv) (orc : EvalOracles) (ev : Env → Msg → MFlags → Prog (Tri × St)) (md : Maildir) (name : Bytes)
+    (st : MainSt) : Prog (MainSt × Maildir) :=
+  match md.dirH with
+  | none => pure (st, md)
+  | some d =>
+    match st.files.get md.path name with
+    | none => pure ({ st with error := true }, md)
+    | some content => do
+      let pm ← messageParseP d md.path name content
+      match pm with
+      | none => pure ({ st with error := true }, md)
+      | some ms =>
+        let eenv : Env := {
+          rx := orc.rx, command := fun _ => -1, isDir := fun _ => false, now := env.now,
+          strptime := orc.strptime, zoneName := orc.zoneName, fileTime := fun _ => none, timeFormat := orc.timeFormat,
+          dryrun := env.dryrun, path := ms.path }
+        let free (ms : MsgSt) : Prog Unit :=
+          match ms.fd with
+          | some h => do let _ ← call (.close h); pure ()
+          | none => pure ()
+        let r ← ev eenv ms.msg ms.flags
+        match r with
+        | (.error, _) => do free ms; pure ({ st with error := true }, md)
+        | (.nomatch, _) => do free ms; pure (st, md)
+        | (.match, est) =>
+          match matchesInterpolate eenv est.ml (partMsg ms.msg ms.parts) with
+          | none => do free ms; pure ({ st with error := true }, md)
+          | some (ml, msgs) =>
+            let ms1 := { ms with msg := msgs 0, flags := est.flags }
+            let st1 := { st with log := st.log ++ inspectLines env ml ms.path }
+            if env.dryrun then do free ms1; pure (st1, md)
+            else do
+              let (xs, e) ← matchesExec env ml { src := md, chsrc := false, ms := ms1, reject := false }
+              free xs.ms
+              pure ({ st1 with error := st1.error || e, reject := st1.reject || xs.reject,
+                               files := afterExec st1.files md.path name xs.ms }, md)
+
+theorem processMessage_eqGP (env : PEnv) (orc : EvalOracles) (expr : Expr) :
+    processMessage env orc expr = processMessageGP env orc (fun eenv m fl => evalP eenv expr m fl) := rfl
+
+/-- `match command "false" move "/d"` -/
+def ruleC : Expr := .mtch 1 (.command 1 [ofString "false"]) (.move 1 [47, 100])
+
+def confC : List ConfBlock := [{ paths := [[47, 109]], expr := ruleC }]
+
+/-- The results of the calls, in order: the child of the condition exits with 1 (wait status 256): no match. -/
+def resultsC : List Res :=
+  [.ok 3, .ok 0,                        -- fopen, fclose of the configuration
+   .ok 4, .name exName,                 -- opendir /m/new, readdir
+   .ok 5, .ok 7, .ok 0,                 -- openat 1.h, read, read (end of file)
+   .ok 6, .ok 0, .ok 256,               -- open /dev/null, fork, waitpid
+   .ok 0, .ok 0,                        -- close 6, close 5
+   .eof, .ok 0, .ok 7, .eof, .ok 0]     -- readdir, closedir 4, opendir /m/cur, readdir, closedir 7
+
+def orclC : Nat → Call → Res := fun i _ => (resultsC[i]?).getD (.ok 0)
+
+def traceC : List (Call × Res) :=
+  (runOracle orclC (mainP exEnv wholeExOrc true confC wholeExFiles []) 0 []).2
+
+set_option maxRecDepth 100000 in
+/-- The run with the `command` condition: the `fork` of evaluation is call 8; the table there is the stream of `/m/new`,
+the message and `/dev/null` (opened by the call before); the condition does not match, nothing is moved, and at the end
+nothing is open. -/
+theorem tablesC :
+    traceC.map (·.1) =
+      [.fopen exEnv.confpath, .fclose 3, .opendir exNew, .readdir 4, .openRd 4 exName, .read 5, .read 5,
+       .openPath (ofString "/dev/null"), .fork, .waitpid, .close 6, .close 5,
+       .readdir 4, .closedir 4, .opendir exCur, .readdir 7, .closedir 7] ∧
+    traceC[8]? = some (.fork, .ok 0) ∧
+    openFdsBy (traceC.take 8) = [(4, .opendir exNew), (5, .openRd 4 exName), (6, .openPath (ofString "/dev/null"))] ∧
+    (traceC.take 8).getLast? = some (.openPath Own.devNull, .ok 6) ∧ openFds traceC = [] := by
+  unfold traceC
+  rw [Own.mainP_eq]
+  unfold Own.mainK
+  simp only [confC, Own.blocks_cons, Own.blocks_nil, Own.paths_cons, Own.paths_nil, dry_walk_eqG, processMessage_eqGP]
+  simp only [ruleC, evalP, evalTop, evalT, eval]
   decide +kernel
 
 end Mdsort.Proofs.FdsEx
